@@ -30,11 +30,17 @@ def method_chain(e):
 def r08_1(run, model):
     run.rule("R08.1", "the free-variable walk sees everything: collect_captured has no catch-all arm, uses every sub-term of every variant, and "
                       "pushes/pops its `bound` stack in pairs")
-    trs = [t for t in P.discover(model) if t.fn.name == "collect_captured"]
+    alltr = P.discover(model)
+    trs = [t for t in alltr if t.fn.name == "collect_captured"]
+    walker = model.fn("collect_captured", LIFT)
     if not trs:
-        raise AnalysisIncomplete("collect_captured not found as a traversal over LiftExpr")
+        # the walk may list the sub-terms through a traversal of its own (`other.children()`): that traversal is held to the same standard
+        called = {S.callee_name(c) for c in S.walk(walker.body) if c["k"] in ("Call", "MethodCall")}
+        trs = [t for t in alltr if t.fn.file == LIFT and t.enum["name"] == "LiftExpr" and t.fn.name in called]
+        if not trs:
+            raise AnalysisIncomplete("collect_captured not found as a traversal over LiftExpr")
     t = trs[0]
-    run.ob("R08.1", "collect_captured|no catch-all", not t.catch and len(t.covered) == len(t.enum["variants"]), site(LIFT, t.match["sp"]),
+    run.ob("R08.1", f"{t.fn.name}|no catch-all", not t.catch and len(t.covered) == len(t.enum["variants"]), site(LIFT, t.match["sp"]),
            f"{len(t.covered)}/{len(t.enum['variants'])} variants explicit, catch-all arms: {len(t.catch)}",
            witness="a node kind that is not walked: variables used inside it are not captured")
     variants = {v["name"]: v for v in t.enum["variants"]}
@@ -48,11 +54,11 @@ def r08_1(run, model):
                 n += 1
                 bound_ = b.get(k)
                 used = isinstance(bound_, str) and bound_ in ids or (isinstance(bound_, tuple) and any(x in ids for x in bound_))
-                run.ob("R08.1", f"collect_captured|{vname}.{k} visited", bool(used), site(LIFT, arm["sp"]),
+                run.ob("R08.1", f"{t.fn.name}|{vname}.{k} visited", bool(used), site(LIFT, arm["sp"]),
                        f"{vname}.{k} {'is walked' if used else 'is skipped (`..`, `_` or unused)'}",
                        witness="compose(f, g) { |x| f(g(x)) }: a captured function used only in callee position is missing from the environment struct; the apply function refers to an unbound name")
     run.floor("sub-terms of LiftExpr variants checked in collect_captured", n, 20)
-    f = t.fn
+    f = walker
     pushes = [c for c in S.calls(f.body, "push") if c["k"] == "MethodCall" and S.is_path(c["recv"], "bound")]
     pops = [c for c in S.calls(f.body, "pop") if c["k"] == "MethodCall" and S.is_path(c["recv"], "bound")]
     ok = len(pushes) == len(pops) and len(pushes) >= 1
